@@ -572,7 +572,7 @@ func TestVF_C38(t *testing.T) {
 	r.Rule("case = 5m aggregate chunks produced by the real DownsampleRaw from a generated raw gauge series (1..3000 samples, integer or 1/8-multiple values so sums are exact, NaN/stale markers single/runs/whole windows, regular/irregular/gappy/sparse scrapes), re-downsampled to 1h with the real downsampleAggr called as Downsample() calls it; " +
 		"oracle: total of count, total of sum, overall min and overall max of the output equal those of the 5m input; output timestamps of count/sum/min/max strictly increase and lie within [first,last] 5m input timestamp; " +
 		"distinct = hash of the 5m input; non-trivial = the input has >= 2 aggregate samples")
-	n := r.N(2000, 80000)
+	n := r.N(2000, 40000)
 	r.Require(int64(n)*3/4, n/3)
 	for c := 0; c < n; c++ {
 		if !r.Want(c) {
@@ -583,7 +583,7 @@ func TestVF_C38(t *testing.T) {
 	}
 	// Round 2: block level - the real Downsample() on an in-memory 5m block whose series mix AggrChunks with 0..3 stray
 	// non-empty plain XOR chunks and empty XOR chunks; totals of the written 1h block must equal the input's.
-	nBlock := r.N(150, 4000)
+	nBlock := r.N(150, 1500)
 	dir := t.TempDir()
 	for c := n; c < n+nBlock; c++ {
 		if !r.Want(c) {
